@@ -353,3 +353,89 @@ def store_predicates(ctx, modules):
             except (Unsupported, Raised):
                 continue
             yield f, expr, acc
+
+
+# ------------------------------------------------------------------------------------------------------------
+STR_METHODS = {"strip", "lstrip", "rstrip", "replace", "lower", "upper", "format", "join"}
+
+
+def _scalar_type(e, env, f, depth=0):
+    if isinstance(e, ast.Constant):
+        return "str" if isinstance(e.value, str) else "int" if isinstance(e.value, (int, float)) else None
+    if isinstance(e, ast.JoinedStr):
+        return "str"
+    if isinstance(e, ast.Name):
+        return env.get(e.id)
+    if isinstance(e, ast.Call):
+        n = call_name(e)
+        if n in ("int", "len", "float", "abs", "round"):
+            return "int"
+        if n == "str":
+            return "str"
+        if isinstance(e.func, ast.Attribute) and e.func.attr in STR_METHODS and (_scalar_type(e.func.value, env, f, depth) == "str" or e.func.attr in ("strip", "lstrip", "rstrip")):
+            return "str"
+        if n in ("max", "min") and len(e.args) == 1:
+            return _elem_type(e.args[0], env, f, depth + 1)
+        return None
+    if isinstance(e, ast.Subscript):
+        if isinstance(e.slice, ast.Slice):
+            return "str" if _scalar_type(e.value, env, f, depth) == "str" else None
+        return _elem_type(e.value, env, f, depth + 1)
+    if isinstance(e, ast.BinOp):
+        a, b = _scalar_type(e.left, env, f, depth), _scalar_type(e.right, env, f, depth)
+        if isinstance(e.op, ast.Add) and "str" in (a, b):
+            return "str"
+        if a == b == "int":
+            return "int"
+    return None
+
+
+def _elem_type(e, env, f, depth=0):
+    """Element type ('str' / 'int' / None = unknown) of the sequence denoted by e inside function f."""
+    if depth > 6:
+        return None
+    if isinstance(e, ast.Call):
+        n = call_name(e)
+        if isinstance(e.func, ast.Attribute) and e.func.attr in ("split", "splitlines", "rsplit"):
+            return "str"
+        if n in ("list", "sorted", "set", "tuple", "reversed") and len(e.args) == 1:
+            return _elem_type(e.args[0], env, f, depth + 1)
+        if n == "filter" and len(e.args) == 2:
+            return _elem_type(e.args[1], env, f, depth + 1)
+        if n == "map" and len(e.args) == 2 and isinstance(e.args[0], ast.Lambda) and len(e.args[0].args.args) == 1:
+            inner = dict(env)
+            inner[e.args[0].args.args[0].arg] = _elem_type(e.args[1], env, f, depth + 1)
+            return _scalar_type(e.args[0].body, inner, f, depth + 1)
+        if n == "map" and len(e.args) == 2 and isinstance(e.args[0], ast.Name) and e.args[0].id in ("int", "len", "str"):
+            return "str" if e.args[0].id == "str" else "int"
+        return None
+    if isinstance(e, (ast.ListComp, ast.GeneratorExp, ast.SetComp)):
+        inner = dict(env)
+        for g in e.generators:
+            if isinstance(g.target, ast.Name):
+                inner[g.target.id] = _elem_type(g.iter, inner, f, depth + 1)
+        return _scalar_type(e.elt, inner, f, depth + 1)
+    if isinstance(e, (ast.List, ast.Tuple, ast.Set)):
+        ts = {_scalar_type(x, env, f, depth + 1) for x in e.elts}
+        return ts.pop() if len(ts) == 1 else None
+    if isinstance(e, ast.Name):
+        defs = [n for n in own_nodes(f.node) if isinstance(n, ast.Assign) and any(isinstance(t, ast.Name) and t.id == e.id for t in n.targets)]
+        other = [n for n in own_nodes(f.node) if (isinstance(n, (ast.AugAssign, ast.AnnAssign)) and isinstance(n.target, ast.Name) and n.target.id == e.id)
+                 or (isinstance(n, (ast.For, ast.comprehension)) and any(isinstance(x, ast.Name) and x.id == e.id for x in ast.walk(n.target)))]
+        if not defs or other or e.id in f.params:
+            return None
+        ts = {_elem_type(d.value, env, f, depth + 1) for d in defs}
+        return ts.pop() if len(ts) == 1 else None
+    return None
+
+
+def extremes(ctx, modules=None):
+    """Every max/min over ONE iterable without key= (and sorted(..)[i]) in the project, with the element type inferred locally.
+    An extreme over strings is lexicographic: 's(10)' < 's(9)'."""
+    for f in ctx.p.functions.values():
+        if modules is not None and f.module.name not in modules:
+            continue
+        for n in own_nodes(f.node):
+            if isinstance(n, ast.Call) and call_name(n) in ("max", "min") and len(n.args) == 1 and not isinstance(n.args[0], ast.Starred) \
+                    and not any(k.arg == "key" for k in n.keywords):
+                yield f, n, _elem_type(n.args[0], {}, f)
